@@ -190,12 +190,18 @@ func (s *S) quiesce(live bool, where string) {
 	}()
 	// generous bound: the scripted SECS-I peer has 1 s line timeouts of its own, so after a line
 	// hiccup its count can trail by seconds; a leaked or missed unit never converges at all
-	waitFor(8*time.Second, func() bool {
-		x = s.indep()
-		m := e.Metrics()
+	agree := func(m [8]int64, x indep) bool {
 		return m[0] == x.sent && m[1] >= x.recvEv && m[1] <= x.recvHi && m[2] == 0 && m[3] == x.err && m[4] == x.drop && m[5] == x.aerr && m[6] == 0 && m[7] == x.redials
-	})
-	x = s.indep()
+	}
+	var m [8]int64
+	took := false
+	for dl := time.Now().Add(8 * time.Second); !took && time.Now().Before(dl); {
+		waitFor(time.Until(dl), func() bool { return agree(e.Metrics(), s.indep()) })
+		// the snapshot is recorded with the harness's bookkeeping frozen, and only if the getters
+		// still agree with it: a library-originated frame (S9F1 / S9F9 notice) landing between the
+		// poll and the snapshot sends us round the loop again instead of into the log
+		m, took = e.SnapshotIf(true, func(mm [8]int64) bool { x = s.indep(); return agree(mm, x) })
+	}
 	maybe := int64(0)
 	for _, p := range e.Peers() {
 		maybe += p.DataSentMaybe.Load()
@@ -206,7 +212,9 @@ func (s *S) quiesce(live bool, where string) {
 		s.unsettled = true
 		s.c.Count("recv-unsettled")
 	}
-	m := e.Snapshot(true)
+	if !took {
+		m, _ = e.SnapshotIf(true, func(mm [8]int64) bool { x = s.indep(); return true }) // never converged: reported below
+	}
 	kase := fmt.Sprintf("%s sentDelta=%d getters{sent=%d recv=%d inflight=%d err=%d drop=%d asyncErr=%d reconnecting=%d reconnects=%d} independent{peerRecv=%d peerSent=%d dispatchEvidence=%d err=%d drop=%d asyncErr=%d reconnects=%d}",
 		where, m[0]-x.sent, m[0], m[1], m[2], m[3], m[4], m[5], m[6], m[7], x.sent, x.recvHi, x.recvEv, x.err, x.drop, x.aerr, x.redials)
 	if m[2] != 0 {
